@@ -1930,6 +1930,12 @@ def check_C16(ck):
         K, C, CP = g.K, g.C, g.CP
         pts = [CP.random_point(rng) for _ in range(6 if not thorough else 40)]
         pts += [g.sswu(K.zero), g.sswu(K.one)]
+        # points of the isogenous curve that ALSO satisfy the equation of the target curve (the two cubics meet at
+        # x = (b - B')/A'): an "already on the target curve" guard must not treat them as images
+        xc = K.mul(K.sub(C.b, CP.b), K.inv(CP.a))
+        Pc = CP.lift_x(xc)
+        if Pc is not None:
+            pts += [Pc, CP.neg(Pc)]
         cases = []
         for P in pts:
             cases.append(("iso/z1", "%s iso %s" % (tag, g.J(P))))
